@@ -24,7 +24,9 @@ type LState struct {
 	May  map[string]bool // locks held on at least one path reaching this point (may-held)
 }
 
-func newLState() LState { return LState{Held: map[string]bool{}, Acq: map[string]int{}, May: map[string]bool{}} }
+func newLState() LState {
+	return LState{Held: map[string]bool{}, Acq: map[string]int{}, May: map[string]bool{}}
+}
 
 func (s LState) clone() LState {
 	n := newLState()
@@ -136,7 +138,7 @@ type VisitCtx struct {
 	Ins    ssa.Instruction
 	Held   []string
 	Stack  []string
-	Guards []GAtom // guards of the enclosing call chain + of the instruction
+	Guards []GAtom           // guards of the enclosing call chain + of the instruction
 	Frames []ssa.Instruction // call instructions of the enclosing call chain (outermost first)
 	EP     string
 	W      *LockWalker
@@ -507,9 +509,9 @@ func (w *LockWalker) fieldAccess(r *Resolver, ins ssa.Instruction, st LState, re
 }
 
 var blockingExternals = map[string]string{
-	"time.Sleep":               "sleep",
-	"(*sync.WaitGroup).Wait":   "WaitGroup.Wait",
-	"(*sync.Cond).Wait":        "Cond.Wait",
+	"time.Sleep":                               "sleep",
+	"(*sync.WaitGroup).Wait":                   "WaitGroup.Wait",
+	"(*sync.Cond).Wait":                        "Cond.Wait",
 	"(*golang.org/x/sync/errgroup.Group).Wait": "errgroup.Wait",
 }
 
@@ -667,10 +669,10 @@ func (w *LockWalker) call(fn *ssa.Function, r *Resolver, ins ssa.Instruction, cc
 							nr.Env[k] = v
 						}
 						w.gstack = append(w.gstack, guardAtoms(r, ins))
-			w.fstack = append(w.fstack, ins)
+						w.fstack = append(w.fstack, ins)
 						w.analyze(f, nr, st, rec, append(append([]string{}, stack...), funcDisplayName(f)))
 						w.gstack = w.gstack[:len(w.gstack)-1]
-			w.fstack = w.fstack[:len(w.fstack)-1]
+						w.fstack = w.fstack[:len(w.fstack)-1]
 					}
 				}
 			}
@@ -750,7 +752,6 @@ func (w *LockWalker) cgCallees(ins ssa.Instruction) []*ssa.Function {
 	return out
 }
 
-
 // guardAtoms renders the guards of an instruction in resolver r. A guard
 // that is the result of a repository predicate function is expanded into
 // the conditions that result implies (resolved in the predicate with its
@@ -824,7 +825,6 @@ func (w *LockWalker) ctxGuards() []GAtom {
 	}
 	return out
 }
-
 
 // expandTable: a guard comparing an entry of a read-only package-level
 // table with a constant, table[k] == C (or a presence test), implies a
